@@ -44,9 +44,11 @@ type Baseline struct {
 	Discharged map[string][]string `json:"discharged"` // property -> obligation names
 }
 
-func loadBaseline() Baseline {
+func loadBaseline() Baseline { return loadBaselineFile("baseline_obligations.json") }
+
+func loadBaselineFile(name string) Baseline {
 	var b Baseline
-	data, err := os.ReadFile(filepath.Join(verifRoot(), "baseline_obligations.json"))
+	data, err := os.ReadFile(filepath.Join(verifRoot(), name))
 	if err == nil {
 		json.Unmarshal(data, &b)
 	}
@@ -71,7 +73,9 @@ func propFilter(spec string) (id string, accept func(class string) bool) {
 			if set[class] {
 				return true
 			}
-			if set["sweep"] && sweepClasses[class] {
+			if set["sweep"] && (sweepClasses[class] || class == "pre") {
+				// callee preconditions are mostly derived from the callee's own panics
+				// (registry accessors, slice arguments): part of crash freedom
 				return true
 			}
 			if set["functional"] && !sweepClasses[class] {
@@ -222,6 +226,18 @@ func cmdCheck(prop, tier string) int {
 	for _, u := range units {
 		names = append(names, u.name)
 	}
+	// thorough tier of the crash-freedom properties: in addition a zero-annotation
+	// safety sweep of every other function of the packages in scope. These extra
+	// units carry no claim of their own: an obligation of theirs counts (and can
+	// raise a violation) only if the committed thorough baseline has it discharged.
+	nClaimed := len(units)
+	if tier == "thorough" {
+		units = append(units, s.extraSweepUnits(prop, names)...)
+		names = names[:0]
+		for _, u := range units {
+			names = append(names, u.name)
+		}
+	}
 	results, err := s.runUnits(names)
 	if err != nil {
 		return fatal(err.Error())
@@ -231,6 +247,11 @@ func cmdCheck(prop, tier string) int {
 	inBase := map[string]bool{}
 	for _, n := range base.Discharged[prop] {
 		inBase[n] = true
+	}
+	if tier == "thorough" {
+		for _, n := range loadBaselineFile("baseline_thorough.json").Discharged[prop] {
+			inBase[n] = true
+		}
 	}
 
 	type sample struct {
@@ -252,6 +273,7 @@ func cmdCheck(prop, tier string) int {
 	solverS := 0.0
 	var funcs []map[string]interface{}
 	assumed := map[string]bool{}
+	trustedClauses := map[string]bool{}
 	notes := map[string]int{}
 	havocked := map[string]int{}
 	instances := 0
@@ -289,8 +311,38 @@ func cmdCheck(prop, tier string) int {
 		os.WriteFile(rp, b, 0o644)
 		return rp, rr
 	}
+	extraDischarged, extraOpen := 0, 0
 	for i, r := range results {
 		u := units[i]
+		if i >= nClaimed {
+			// extra sweep unit (thorough): regression check against the baseline only
+			for _, o := range r.Obs {
+				if !sweepClasses[o.Class] {
+					continue
+				}
+				if o.Status == "discharged" {
+					extraDischarged++
+					seen[o.Name] = true
+					continue
+				}
+				extraOpen++
+				seen[o.Name] = true
+				if inBase[o.Name] && matchKnown(known, prop, o) == nil {
+					nObl++
+					verdict := "sat"
+					if o.Status != "failed" {
+						verdict = "undecided:" + o.Backend
+					}
+					rp, rr := writeReplay(o, verdict, "sweep obligation discharged in the thorough baseline, not discharged now")
+					line := fmt.Sprintf("VIOLATION property=%s replay=%s obligation=%s at %s", prop, rp, o.Name, o.Pos)
+					if rr == nil || !rr.Confirmed {
+						line += " no-failing-input-found"
+					}
+					violations = append(violations, line)
+				}
+			}
+			continue
+		}
 		fe := map[string]interface{}{"function": r.Name, "paths": r.Paths, "path_instances": r.Instances}
 		if r.Aborted != "" {
 			fe["out_of_reach"] = r.Aborted
@@ -303,9 +355,31 @@ func cmdCheck(prop, tier string) int {
 			}
 		}
 		funcs = append(funcs, fe)
-		for _, c := range r.UsedCons {
-			if con := s.conOf(c); con != nil && con.Extern {
+		for _, c := range append([]string{r.Name}, r.UsedCons...) {
+			con := s.conOf(c)
+			if con == nil {
+				continue
+			}
+			if con.Extern {
 				assumed[c] = true
+				continue
+			}
+			// unchecked parts of contracts of functions of the module itself
+			for _, e := range con.Ensures {
+				if e.Trusted {
+					trustedClauses[c+": ensures! "+e.Src] = true
+				} else if con.NoPaths {
+					trustedClauses[c+": ensures (body not executed: nopaths) "+e.Src] = true
+				}
+			}
+			for _, a := range con.Assumes {
+				trustedClauses[c+": assume "+a.Src] = true
+			}
+			for _, t := range con.Trusted {
+				trustedClauses[c+": "+t] = true
+			}
+			if con.NoPaths && con.HasMod && c != r.Name {
+				trustedClauses[c+": frame (modifies clause) not checked: nopaths"] = true
 			}
 		}
 		for k, v := range r.Notes {
@@ -452,6 +526,10 @@ func cmdCheck(prop, tier string) int {
 		"load_time_s":              round3(s.LoadSecs),
 		"samples":                  samples,
 		"assumed_contracts_used":   assumedList,
+		"unchecked_clauses_used":   sortedKeys(trustedClauses),
+		"thorough_extra_sweep": map[string]interface{}{"functions": len(units) - nClaimed, "sweep_obligations_discharged": extraDischarged,
+			"sweep_obligations_open_not_claimed": extraOpen,
+			"note": "thorough tier only: zero-annotation safety sweep of the functions of the packages in scope that are not under contract; not part of the claim, compared with the thorough baseline to catch regressions"},
 		"abstractions_hit":         notes,
 		"callees_havocked":         havocked,
 		"known_finding_obligations": knownObs,
@@ -525,6 +603,57 @@ func assumptionsFor(prop string) []string {
 }
 
 // cmdBaseline recomputes baseline_obligations.json from the current tree.
+// cmdBaselineThorough recomputes baseline_thorough.json: the sweep obligations of
+// the extra (unclaimed) units of the thorough tier that discharge on the current tree.
+func cmdBaselineThorough() int {
+	s, err := newSession("", 10)
+	if err != nil {
+		return 2
+	}
+	defer s.close()
+	base := Baseline{Discharged: map[string][]string{}}
+	for _, prop := range []string{"C10", "C12"} {
+		units, err := s.unitsFor(prop)
+		if err != nil {
+			fmt.Fprintln(os.Stderr, err)
+			return 2
+		}
+		var have []string
+		for _, u := range units {
+			have = append(have, u.name)
+		}
+		extra := s.extraSweepUnits(prop, have)
+		var names []string
+		for _, u := range extra {
+			names = append(names, u.name)
+		}
+		results, err := s.runUnits(names)
+		if err != nil {
+			fmt.Fprintln(os.Stderr, err)
+			return 2
+		}
+		set := map[string]bool{}
+		open := 0
+		for _, r := range results {
+			for _, o := range r.Obs {
+				if !sweepClasses[o.Class] {
+					continue
+				}
+				if o.Status == "discharged" {
+					set[o.Name] = true
+				} else {
+					open++
+				}
+			}
+		}
+		base.Discharged[prop] = sortedKeys(set)
+		fmt.Printf("%s thorough: %d extra functions, %d sweep obligations discharged, %d open (not claimed)\n", prop, len(names), len(set), open)
+	}
+	b, _ := json.MarshalIndent(base, "", " ")
+	os.WriteFile(filepath.Join(verifRoot(), "baseline_thorough.json"), b, 0o644)
+	return 0
+}
+
 func cmdBaseline() int {
 	props := []string{}
 	for i := 1; i <= 20; i++ {
@@ -571,3 +700,97 @@ func cmdBaseline() int {
 }
 
 func cmdSelftest(args []string) int { return runSelftest(args) }
+
+// extraSweepUnits: for the crash-freedom properties (C10: every package of the
+// root module; C12: the cbor package) the functions that are not under
+// contract, with a default safety-sweep contract.
+func (s *Session) extraSweepUnits(prop string, have []string) []propUnit {
+	var prefixes []string
+	switch prop {
+	case "C10":
+		prefixes = []string{"fdo.", "cbor.", "cose.", "kex.", "protocol.", "serviceinfo.", "http.", "internal/nistkdf."}
+	case "C12":
+		prefixes = []string{"cbor."}
+	default:
+		return nil
+	}
+	p, err := s.prog("")
+	if err != nil {
+		return nil
+	}
+	has := map[string]bool{}
+	for _, n := range have {
+		has[n] = true
+	}
+	var out []propUnit
+	for _, n := range sortedKeys(p.Funcs) {
+		ok := false
+		for _, pre := range prefixes {
+			if strings.HasPrefix(n, pre) {
+				ok = true
+			}
+		}
+		if !ok || has[n] || strings.Contains(n, "_test") || strings.Contains(n, ".init") {
+			continue
+		}
+		fn := p.Funcs[n]
+		if len(fn.Blocks) == 0 || fn.Synthetic != "" {
+			continue
+		}
+		if pos := p.SSA.Fset.Position(fn.Pos()); strings.HasSuffix(pos.Filename, "_test.go") {
+			continue
+		}
+		if c, exists := p.CS.ByName[n]; exists {
+			if c.Extern || c.NoPaths || c.Inline {
+				continue
+			}
+			if len(c.Sweep) > 0 {
+				// under contract with its own sweep, serving other properties: run as is
+				out = append(out, propUnit{n, func(c string) bool { return sweepClasses[c] }})
+				continue
+			}
+			continue
+		}
+		p.CS.ByName[n] = &Contract{Name: n, Invariants: map[int][]Clause{}, MaxPaths: 3000,
+			Sweep: map[string]bool{"bounds": true, "panic": true, "make": true, "nilmem": true, "div": true}}
+		out = append(out, propUnit{n, func(c string) bool { return sweepClasses[c] }})
+	}
+	return out
+}
+
+// cmdParams prints, for every verified function under contract, its current
+// parameter names (receiver first): input of tools/add_params.py.
+func cmdParams() int {
+	s, err := newSession("", 10)
+	if err != nil {
+		return 2
+	}
+	defer s.close()
+	for _, mod := range []string{"", "fsim", "sqlite"} {
+		p, err := s.prog(mod)
+		if err != nil {
+			fmt.Fprintln(os.Stderr, err)
+			return 2
+		}
+		for _, n := range p.CS.Order {
+			c := p.CS.ByName[n]
+			if c.Extern || moduleOf(n) != mod {
+				continue
+			}
+			fn := p.Funcs[n]
+			if fn == nil {
+				continue
+			}
+			var ps []string
+			for _, prm := range fn.Params {
+				nm := prm.Name()
+				if nm == "" {
+					nm = "_"
+				}
+				ps = append(ps, nm)
+			}
+			fmt.Printf("%s\t%s\n", n, strings.Join(ps, " "))
+		}
+	}
+	return 0
+}
